@@ -72,3 +72,12 @@ package keystore
 //@   assert-at call EncodeToString#4 exported-crypto-keys-are-the-stored-ciphertexts: arg0 == lastresult("fetchCryptoKeys", 0)
 //@   assert-at call EncodeToString#5 exported-crypto-keys-are-the-stored-ciphertexts: arg0 == lastresult("fetchCryptoKeys", 1)
 //@   assert-at return#-1 file-fields-are-those-encodings: result0 != nil && result0.Crypto.MasterHDPrivKeyEnc == lastresult("EncodeToString#1") && result0.Crypto.PubParams == lastresult("EncodeToString#2") && result0.Crypto.PrivParams == lastresult("EncodeToString#3") && result0.Crypto.CryptoKeyPubEnc == lastresult("EncodeToString#4") && result0.Crypto.CryptoKeyPrivEnc == lastresult("EncodeToString#5")
+
+// ---- C04: the crypto keys that seal the stored material stay intact while they are in use: import and create never
+// wipe the bytes Bytes() hands out (they are the key itself, not a copy); the seed is never rendered as text; no key
+// object is formatted into an error text
+//@ func (*KeystoreManagerForPoC).allocAddrMgrNamespace
+//@   assert-at call? zero.Bytes never-on-the-bytes-of-a-crypto-key-in-use: arr(arg0) != addr(unbox("*cryptoKey", cryptoKeyPriv).CryptoKey) && arr(arg0) != addr(unbox("*cryptoKey", cryptoKeyPub).CryptoKey)
+//@ func create
+//@   assert-at call? zero.Bytes never-on-the-bytes-of-a-crypto-key-in-use: arr(arg0) != addr(unbox("*cryptoKey", cryptoKeyPriv).CryptoKey) && arr(arg0) != addr(unbox("*cryptoKey", cryptoKeyPub).CryptoKey)
+//@   assert-at call? EncodeToString the-seed-is-never-rendered-as-text: arr(arg0) != arr(seed)
